@@ -14,6 +14,13 @@ CHECKS = {
             'independently contracted dense tensors. Exploration, not proof: it decides thousands of instances per run.',
             'Trusts NumPy/LAPACK and vt/dense.py; tolerance 1e-11 relative to the product of core norms; 1-norm only on '
             'non-negative tensors (documented).', '3/C01'),
+    'C02': ('property-based testing (Hypothesis): differential against numpy.tensordot/reshape/delta-embedding/block placement',
+            'Generated-input search over contraction modes and axis counts (partial and the three complete cases), boundary-rank '
+            'contractions, concatenation, rank transposition, diag subsets incl. size-1 modes, squeeze placements, random '
+            'factorizations for tt2qtt/qtt2tt (with round trip) and block lists with 0 placeholders for build_core; results are '
+            'compared with the documented dense definition including mode order. Exploration, not proof.',
+            'Trusts NumPy and vt/dense.py; inputs satisfy the documented preconditions (matching contracted dims, required '
+            'boundary ranks 1, at least one ndarray block).', '3/C02'),
 }
 
 BUILT = set(CHECKS)
@@ -41,7 +48,7 @@ def main():
           for pid in ALL if pid not in CHECKS]
     man = {
         'version': 1,
-        'setup_cmd': '/venv/bin/pip install --no-index --find-links /opt/veriftools/wheels hypothesis numpy scipy',
+        'setup_cmd': '/venv/bin/pip install --no-index --find-links /opt/veriftools/wheels hypothesis',
         'hooks': {
             'guard': 'PGELSS_SCIKIT_TT_VERIF',
             'enable': 'no source hooks are needed: ./check runs the working tree of /repo directly (PYTHONPATH=/repo, fresh '
